@@ -135,7 +135,13 @@ func cmdCheck(args []string) int {
 	progs := map[string]*Program{}
 	var results []*RunResult
 	var problems []string
-	for _, spec := range runs {
+	unlisted := 0
+	for ri, spec := range runs {
+		// a tree that already shows violations need not be explored to the end: report what was found
+		if unlisted > 0 && time.Since(t0) > 3*time.Minute {
+			fmt.Printf("skipping the remaining %d runs: violations were already found\n", len(runs)-ri)
+			break
+		}
 		key := strings.Join(spec.Files, ",")
 		p, ok := progs[key]
 		if !ok {
@@ -151,13 +157,27 @@ func cmdCheck(args []string) int {
 		res := runHarness(p, spec, solver, workers, seed)
 		results = append(results, res)
 		fmt.Printf("run %s%v: paths=%d vcs=%d queries=%v findings=%d wall=%.1fs exhaustive=%v\n", spec.Harness, spec.Args, res.Paths, res.VCs, res.Queries, len(res.Findings), res.WallS, res.Exhaustive)
+		for _, f := range res.Findings {
+			isKnown := false
+			for i := range known.Findings {
+				if known.Findings[i].matches(prop, f) {
+					isKnown = true
+				}
+			}
+			if !isKnown && f.Kind != "UNWIND" && f.Kind != "ENGINE" {
+				unlisted++
+			}
+		}
 		for _, s := range res.Inconcl {
+			if unlisted > 0 && strings.HasPrefix(s, "INCOMPLETE") {
+				continue // the early stop after violations is not a problem of its own
+			}
 			problems = append(problems, spec.Harness+": "+s)
 		}
 		for _, s := range res.EngineErr {
 			problems = append(problems, spec.Harness+": ENGINE "+s)
 		}
-		if !res.Exhaustive && len(res.Inconcl) == 0 && len(res.EngineErr) == 0 {
+		if !res.Exhaustive && len(res.Inconcl) == 0 && len(res.EngineErr) == 0 && unlisted == 0 {
 			problems = append(problems, spec.Harness+": INCOMPLETE")
 		}
 		for _, r := range spec.Reach {
